@@ -160,6 +160,7 @@ package cookie
 //@     && bytes(arg(NewCFBCipher, 0)) == bytes(ret(SecretBytes)) && arg(SecretBytes, 0) == cookieOpts.Secret
 //@ ensures[cipher-error-is-an-error] ret1(NewCFBCipher) != nil ==> ret1 != nil && ret0 == nil
 //@ prop C19 C02
+//@ ensures[nonnil:a-store-or-an-error] ret1 == nil ==> ret0 != nil
 //@ ensures[nonnil:store-has-its-options-and-cipher] ret1 == nil ==> typeis(ret0, "*SessionStore") && as(ret0, "*SessionStore").Cookie == cookieOpts
 //@     && as(ret0, "*SessionStore").CookieCipher == ret0(NewCFBCipher) && ret0(NewCFBCipher) != nil
 //@ prop C19
